@@ -3,18 +3,24 @@
   (commonroad/planning/goal.py:88-121, 196-226) and `PlanningProblem.goal_reached`
   (commonroad/planning/planning_problem.py:83-94).
 
-  Parameters supplied per (goal state, state) pair, not computed here:
-    * `inPos`   – the answer of `goal_state.position.contains_point(state.position)` (shapes: C06),
-    * `speed`   – `hypot(vx, vy)`, `heading` – `atan2(vy, vx)` of the state (transcendental).
+  The position test is `CR.Geom.Shape.contains` (the model of `Shape.contains_point`, CRModel/Geom.lean; C06 proves it
+  denotes the closed shape). `hypot` and `atan2` are FUNCTION parameters `F.hyp`, `F.at2` (transcendental; any functions):
+  what the model fixes is WHICH arguments they are applied to — speed is `hyp vx vy`, heading is `at2 vy vx`.
 -/
 import CRModel.Interval
+import CRModel.Geom
 namespace CR.Goal
 open CR.Iv
+
+/-- The two transcendental functions the check uses, as parameters. -/
+structure Fns where
+  hyp : Rat → Rat → Rat        -- np.linalg.norm([vx, vy])
+  at2 : Rat → Rat → Rat        -- math.atan2(y, x)
 
 /-- A goal state: mandatory time interval, optional position / orientation / velocity constraints. -/
 structure GState where
   time : I
-  hasPos : Bool
+  pos : Option CR.Geom.Shape
   ori : Option I
   vel : Option I
   deriving Repr
@@ -22,13 +28,14 @@ structure GState where
 /-- The state under test (exact values). -/
 structure St where
   t : Rat
-  hasPos : Bool
+  pos : Option CR.Geom.Pt
   ori : Option Rat      -- stored `orientation` attribute, if the state class has one and it is set
   vel : Option Rat      -- `velocity`
   velY : Option Rat     -- `velocity_y`
-  speed : Rat           -- parameter: hypot(velocity, velocity_y)
-  heading : Rat         -- parameter: atan2(velocity_y, velocity)
   deriving Repr
+
+def GState.hasPos (g : GState) : Bool := g.pos.isSome
+def St.hasPos (s : St) : Bool := s.pos.isSome
 
 /-- `_harmonize_state_types` fires: the state has `velocity` and `velocity_y`, the goal constrains
     orientation or velocity (a goal state can never carry `velocity_y`). -/
@@ -41,36 +48,39 @@ def fieldsOk (g : GState) (s : St) : Bool :=
   (!g.ori.isSome || (s.ori.isSome || harmonized g s)) &&
   (!g.vel.isSome || s.vel.isSome)
 
-/-- `state_new.velocity` after harmonisation. -/
-def velOf (g : GState) (s : St) : Option Rat := if harmonized g s then some s.speed else s.vel
+/-- `state_new.velocity` after harmonisation: `np.linalg.norm([velocity, velocity_y])`. -/
+def velOf (F : Fns) (g : GState) (s : St) : Option Rat :=
+  if harmonized g s then some (F.hyp (s.vel.getD 0) (s.velY.getD 0)) else s.vel
 
 /-- `state_new.orientation` after harmonisation: the stored attribute, else the heading of (vx, vy). -/
-def oriOf (g : GState) (s : St) : Option Rat :=
+def oriOf (F : Fns) (g : GState) (s : St) : Option Rat :=
   match s.ori with
   | some θ => some θ
-  | none => if harmonized g s then some s.heading else none
+  | none => if harmonized g s then some (F.at2 (s.velY.getD 0) (s.vel.getD 0)) else none
 
 /-- One iteration of the loop in `is_reached`. -/
-def reachedOne (τ ε : Rat) (g : GState) (s : St) (inPos : Bool) : Res Bool :=
+def reachedOne (F : Fns) (τ ε : Rat) (g : GState) (s : St) : Res Bool :=
   if ¬ fieldsOk g s then .error .value else
   let r1 := contains g.time s.t
-  let r2 := if g.hasPos && s.hasPos then inPos else true
-  let r3 := match g.ori, oriOf g s with
+  let r2 := match g.pos, s.pos with
+    | some sh, some p => sh.contains p
+    | _, _ => true
+  let r3 := match g.ori, oriOf F g s with
     | some iv, some θ => containsAngle τ ε iv θ
     | _, _ => true
-  let r4 := match g.vel, velOf g s with
+  let r4 := match g.vel, velOf F g s with
     | some iv, some v => contains iv v
     | _, _ => true
   .ok (r1 && r2 && r3 && r4)
 
 /-- The loop over goal states (`np.any` of the per-goal results; a `ValueError` aborts the loop). -/
-def isReached (τ ε : Rat) : List (GState × Bool) → St → Res Bool
+def isReached (F : Fns) (τ ε : Rat) : List GState → St → Res Bool
   | [], _ => .ok false
-  | (g, inPos) :: rest, s =>
-    match reachedOne τ ε g s inPos with
+  | g :: rest, s =>
+    match reachedOne F τ ε g s with
     | .error e => .error e
     | .ok b =>
-      match isReached τ ε rest s with
+      match isReached F τ ε rest s with
       | .error e => .error e
       | .ok b' => .ok (b || b')
 
